@@ -154,6 +154,7 @@ func runProgProperty(run *Run, ps progSpec) {
 		if f.CaseIdx >= 0 && f.CaseIdx < len(cases) {
 			idx, _ := strconv.Atoi(cases[f.CaseIdx].Ops[0].Args[1])
 			f.Source = getProg(idx).Src
+			f.Sexp = getProg(idx).Sexp
 		}
 	}
 	if run.Rule != "" {
